@@ -123,7 +123,7 @@ let jstate s =
       | Some v -> "[" ^ jname nm ^ "," ^ jdtype v.vdtype ^ "," ^ jlist jnat v.vshape ^ "," ^ jlist jcell v.vdata ^ "]"
       | None -> "[" ^ jname nm ^ ",null,null,null]") s.index in
   let vs = match values_shape s with Ret sh -> jlist jnat sh | Raise e -> jstr (exn_name e) in
-  "{\"index\":" ^ jlist jname s.index ^ ",\"vars\":[" ^ String.concat "," vars ^ "],\"values\":" ^ vs
+  "{\"span\":" ^ jlist zstr s.span ^ ",\"index\":" ^ jlist jname s.index ^ ",\"vars\":[" ^ String.concat "," vars ^ "],\"values\":" ^ vs
   ^ ",\"size\":" ^ jnat (size_of s) ^ ",\"nbytes\":" ^ jnat (nbytes_own s)
   ^ ",\"strict\":" ^ (if s.strict then "true" else "false")
   ^ ",\"reg\":" ^ jlist jname (reg_names s.registry)
@@ -179,7 +179,7 @@ let handle line =
            let opl = List.map op_of_opt (list_of ops) in
            "{\"init\":\"ok\",\"st0\":" ^ jstate s0 ^ ",\"steps\":[" ^ String.concat "," (run_ops np_step read s0 opl) ^ "]"
            ^ jreindex (fun x -> x) rx (final_state np_step s0 opl) ^ "}")
-  | L [A "alias"; A k; extra; al; pref; sp; st; d; dflt; nms; ivs; ops; reads; rx] ->
+  | L [A "alias"; A k; extra; al; pref; sp; st; d; dflt; nms; ivs; ops; reads; rx; L [A "fl"; f1; f2; f3]] ->
       (* AliasMixin over a model / linker: constructor, ops through aliases, renamed export *)
       let dr = match dreq_of d with Some x -> x | None -> failwith "dreq" in
       (match alias_construct (aliases_of al) (names_of pref) with
@@ -194,7 +194,7 @@ let handle line =
                 let opl = List.map op_of_opt (list_of ops) in
                 let steps = run_ops (alias_step am) (alias_read am) s0 opl in
                 let sfin = List.fold_left (fun s o -> match o with None -> s | Some o -> fst (alias_step am o s)) s0 opl in
-                let ren = match export am sfin with
+                let ren = match export_with am (int_of_sx f1 <> 0) (int_of_sx f2 <> 0) (int_of_sx f3 <> 0) sfin with
                   | Ret l -> jlist (fun (t, src) -> "[" ^ jname t ^ "," ^ jname src ^ "]") l | Raise e -> jstr (exn_name e) in
                 let jres = function Ret cells -> "{\"ok\":" ^ jlist jcell cells ^ "}" | Raise e -> jstr (exn_name e) in
                 let rds = List.map (function
